@@ -832,6 +832,14 @@ fn arb_value_text() -> impl Strategy<Value = String> {
     ]
 }
 
+pub fn arb_env_pub() -> impl Strategy<Value = BTreeMap<String, String>> {
+    arb_env()
+}
+
+pub fn arb_soup_pub() -> impl Strategy<Value = String> {
+    arb_soup()
+}
+
 fn arb_env() -> impl Strategy<Value = BTreeMap<String, String>> {
     proptest::collection::btree_map(
         prop_oneof![Just("a".to_string()), Just("b".to_string()), Just("c".to_string()), Just("_x1".to_string())],
@@ -950,6 +958,7 @@ pub fn run(ctx: &Ctx, st: &mut Stats) {
             ConstCase { text, template: templates[t].0.to_string(), direct: templates[t].1.to_string() }
         })
     });
+    super::c03_shell::run(ctx, st);
 }
 
 pub fn replay(driver: &str, case: &serde_json::Value) -> Result<(Outcome, Option<&'static str>), String> {
@@ -957,6 +966,8 @@ pub fn replay(driver: &str, case: &serde_json::Value) -> Result<(Outcome, Option
         "tree" => TREE.replay_known(case),
         "text" => TEXT.replay_known(case),
         "const-var" => CONST.replay_known(case),
+        "shell" => super::c03_shell::SHELL.replay_known(case),
+        "shell-text" => super::c03_shell::SHELL_TEXT.replay_known(case),
         _ => Err(format!("unknown driver {driver}")),
     }
 }
